@@ -314,6 +314,14 @@ func c06Gen(r *rng, g *tyGen, u *universe) c06Case {
 					args = append(args, a)
 				}
 				return b.NewCall(p[0], args...)
+			},
+			text: func(p []*ir.Param) string {
+				// the callee's full function type is written when it is variadic, the return type otherwise
+				typ := ret.String()
+				if ft.Variadic {
+					typ = ft.String()
+				}
+				return fmt.Sprintf("call %s %s(", typ, p[0].Ident())
 			}}
 	case 19:
 		t := g.sized(2).build(u)
